@@ -21,10 +21,12 @@ Reading choices (each is also a theorem or an `example` in Props/C03.lean):
 * "name on the blocked-hosts list" is the rule engine's answer for the single
   question of the request (oracle bit); requests with 0 or ≥ 2 questions name
   nothing;
-* a request whose ClientID cannot be determined (C16 failure) is judged only
-  where the property is unambiguous without a ClientID: if no allowed list is
-  configured and its address is disallowed, or its name is on the blocked-hosts
-  list, it must be dropped/REFUSED like any other excluded request;
+* a request whose ClientID cannot be determined (C16 failure: malformed
+  label, server-name mismatch) has no ClientID that could be on a list (list
+  entries are valid labels), so it is excluded or admitted by its address
+  alone, exactly like a request without ClientID; when it is excluded, or its
+  name is blocked, it must be dropped/REFUSED like any other such request; when
+  it is not, what it gets (SERVFAIL) is C16's business, not this property's;
 * the zero `netip.Addr` (no address at all) in allow-list mode is outside the
   property unless its ClientID is allowed.
 -/
@@ -92,9 +94,6 @@ inductive Why where
   | replyKind
   /-- a request that is neither excluded nor for a blocked name was not served -/
   | notServed
-  /-- an excluded request (by address alone, or by name) whose ClientID is
-  malformed got an answer other than the refusal the transport requires -/
-  | badIDReply
   deriving DecidableEq, Repr
 
 def Why.token : Why → String
@@ -102,28 +101,22 @@ def Why.token : Why → String
   | .served => "C03.served-excluded"
   | .replyKind => "C03.reply-kind"
   | .notServed => "C03.others-not-served"
-  | .badIDReply => "C03.excluded-bad-clientid-reply"
 
 /-- First clause of the property that the observation breaks, if any. -/
 def specFail (c : Case) (o : Obs) : Option Why :=
-  match c.req.clientID with
-  | .error _ =>
-    if (c.allowed.isEmpty && addrListed c.blocked c.req.addr) || nameBlocked c.req then
+  let id := c.req.effectiveID
+  if !inScope c id then none
+  else
+    let ex := excluded c.allowed c.blocked c.req.addr id
+    if o.blocked != ex then some .decision
+    else if ex || nameBlocked c.req then
       if o.action == .pass then some .served
-      else if o.action != refusal c.req.proto then some .badIDReply
+      else if o.action != refusal c.req.proto then some .replyKind
       else none
-    else none
-  | .ok id =>
-    if !inScope c id then none
     else
-      let ex := excluded c.allowed c.blocked c.req.addr id
-      if o.blocked != ex then some .decision
-      else if ex || nameBlocked c.req then
-        if o.action == .pass then some .served
-        else if o.action != refusal c.req.proto then some .replyKind
-        else none
-      else if o.action != .pass then some .notServed
-      else none
+      match c.req.clientID with
+      | .ok _ => if o.action != .pass then some .notServed else none
+      | .error _ => none
 
 def specOK (c : Case) (o : Obs) : Bool := (specFail c o).isNone
 
